@@ -1899,7 +1899,11 @@ def note_array_from_part_list(
     # sort by onset and pitch
     pitch_sort_idx = np.argsort(note_array["pitch"])
     note_array = note_array[pitch_sort_idx]
-    onset_sort_idx = np.argsort(note_array[onset_unit], kind="mergesort")
+    # (the onsets of parts with different divisions can differ by 1e-17 at the
+    # same moment: notes are ordered by onset up to rounding, then by pitch)
+    onset_sort_idx = np.argsort(
+        np.round(note_array[onset_unit].astype(float), 6), kind="mergesort"
+    )
     note_array = note_array[onset_sort_idx]
 
     return note_array
